@@ -30,6 +30,20 @@ pub fn implemented(id: &str) -> bool {
 }
 
 pub fn run(id: &str, ctx: &mut Ctx) {
+    // what a whole-API observation is compared on (obs::scope): properties about one aspect of an ontology
+    // compare that aspect; properties that claim observational identity compare everything
+    {
+        use crate::obs::scope::*;
+        crate::obs::set_scope(match id {
+            "C01" => GRAPH,
+            "C02" => LINKS,
+            "C03" => IC,
+            "C19" => CLASSIFY,
+            // the statement fixes what a sub-ontology contains, not the order in which id lists are handed out
+            "C14" => ALL & !ORDER,
+            _ => ALL,
+        });
+    }
     match id {
         "C01" => c01::run(ctx),
         "C02" => c02::run(ctx),
